@@ -123,6 +123,19 @@ def run_sched(ctx, prop, modules, theorems):
                               "skipped_wedged_known_deadlock": skipped}
     if lines and compared < 0.6 * len(lines):
         ctx.violation("correspondence-coverage", "", f"only {compared}/{len(lines)} traces compared", no_input=True)
+    # ---- directed search: scripts on which the real scheduler left the model's behaviours are re-run with a
+    # drain-and-probe suffix (VERIF_EXTEND) so that the end-of-trace monitors get a chance to turn the divergence
+    # into a concrete property failure (e.g. a blocked completed loop only shows on the NEXT request)
+    div = [d["op"] for d in ctx.l1_disagreements if d and d.get("op", "").startswith("sched-trace")]
+    if div and not ctx.replay:
+        rp = os.path.join(ctx.tmp, "extend-scripts.txt")
+        with open(rp, "w") as f:
+            f.write("\n".join(sorted(set(div), key=len)[:12]) + "\n")
+        erc, eout, edir = ctx.go_test("./server/", overlay, "^TestVerifSched$",
+                                      env={"VERIF_REPLAY": rp, "VERIF_EXTEND": "1"}, timeout=900)
+        found = [f for f in ctx.l2(edir) if f["kind"].startswith(prefix)]
+        ctx.coverage["directed_search"] = {"diverging_scripts_extended": len(set(div)), "l2_failures_found": len(found)}
+        failures += found
     # ---- C11 only: the eviction decision as a pure function (real findRunnerToUnload vs the model's findVictim)
     if prop == "C11" and not ctx.replay:
         vrc, vout, vdir = ctx.go_test("./server/", {"server/zz_verif_c11_victim_test.go": "server/zz_verif_c11_victim_test.go"},
